@@ -2,6 +2,6 @@ SPECIFICATION Spec
 CONSTANTS
   MaxId = 2
   NKeys = 2
-INVARIANT TypeInv GetReturnsPut AbsentIsAbsent LenAgrees KeyLaws BatchLaws IterLaws
+INVARIANT TypeInv GetReturnsPut AbsentIsAbsent LenAgrees KeyLaws BatchLaws IterLaws KeyListLaws IterBlobLaws
 PROPERTY NoLiveIdReissued IssuedMonotone FewIdsChange
 CHECK_DEADLOCK FALSE
